@@ -357,6 +357,7 @@ def main(rep, tier, seed):
     corpus = load_corpus()
     items = corpus + gen_cases(rng, tier)
     outl, bad, errors = F.correspond(binpath, items, HEADER, CHECK, "c08")
+    rep.extra["build_profiles"] = F.profile_phase(rep, "c08", items, outl, profiles=("release",)) if not errors and len(outl) == len(items) else {}
     for name, msg in errors:
         rep.violation("correspondence_error_" + name.replace("/", "_"), {"kind": "correspondence could not be evaluated", "where": name, "log": msg}, no_input=True)
     hist = {"ratio_kind": {}, "format": {}, "interpolator": {"floor": 0, "linear": 0}, "source_len": {}, "outputs": 0,
